@@ -4,9 +4,9 @@ import numpy as np
 from .common import Acc, intercept, result, search_result
 
 ID = "C28"
-LEAN_MODULES = ["MjwVerif.Props.C28", "MjwVerif.Props.C28Maps"]
+LEAN_MODULES = ["MjwVerif.Props.C28", "MjwVerif.Props.C28Maps", "MjwVerif.Props.C28Rows"]
 GEN_FUNCS = ["island._flood_fill", "island._tree_edges", "island._island_count_dofs", "island._island_scan_sizes", "island._island_map_dofs", "island._island_count_constraints",
-             "island._island_map_constraints"]
+             "island._island_map_constraints", "island._compute_efc_tree"]
 KERNELS = ["island._flood_fill", "island._tree_edges", "island._island_count_dofs", "island._island_scan_sizes", "island._island_map_dofs"]
 LEVEL_TEXT = ("Theorems: the `_flood_fill` kernel regenerated from island.py on every run (with in/out array aliasing taken from the launch) equals a hand-written DFS model for all inputs; in the "
               "model, for every ntree and every symmetric adjacency: same label <=> connected and touched, untouched => -1, labels are 0..nisland-1 numbered by smallest tree, stack depth <= ntree^2 "
@@ -124,11 +124,19 @@ def _scene_rows(rng, c):
       eqs.append(f'<weld body1="b{a}" body2="b{b}"/>')
     elif r < 0.6:
       eqs.append(f'<connect body1="b{a}" anchor=".3 .1 0"/>')
+    elif r < 0.72:   # site-addressed equalities between two trees
+      eqs.append(f'<connect site1="s{a}" site2="s{b}"/>' if rng.random() < 0.5 else f'<weld site1="s{a}" site2="s{b}"/>')
     elif len(scal) >= 2:   # (tendon equalities: MuJoCo 3.13 refuses them when sleeping is enabled)
       j1, j2 = rng.choice(scal, size=2, replace=False)
       eqs.append(f'<joint joint1="{j1}" joint2="{j2}"/>' if rng.random() < 0.7 else f'<joint joint1="{j1}"/>')
+  if c % 4 == 1:
+    # every 4th case: an equality whose FIRST end is static (world site / world body), in both addressing modes; the two world sites shift
+    # the site ids against the body ids, so that "site id read as body id" names a body of another tree
+    b = int(rng.integers(0, n))
+    eqs.append([f'<connect site1="sw0" site2="s{b}"/>', f'<weld site1="sw1" site2="s{b}"/>', f'<connect body1="world" body2="b{b}" anchor=".3 .1 0"/>',
+                f'<weld site1="s{b}" site2="sw1"/>'][(c // 4) % 4])
   xml = f"""<mujoco><compiler angle="radian"/><option jacobian="{jac}" cone="{cone}"><flag sleep="enable"/></option>
-  <worldbody><geom type="plane" size="5 5 .1" condim="1"/>{''.join(bodies)}</worldbody>
+  <worldbody><site name="sw0" pos=".3 .1 .4"/><site name="sw1" pos="-.2 .1 .5"/><geom type="plane" size="5 5 .1" condim="1"/>{''.join(bodies)}</worldbody>
   <tendon>{''.join(tendons)}</tendon><equality>{''.join(eqs)}</equality></mujoco>"""
   return xml, {"scal": scal, "force": force, "free_onfloor": [i for i in range(n) if kinds[i] == "free" and onfloor[i]]}
 
